@@ -1,8 +1,8 @@
 package props
 
 import (
-	"bytes"
 	"fmt"
+	"strings"
 
 	"github.com/kstenerud/go-concise-encoding/ce"
 	"github.com/kstenerud/go-concise-encoding/ce/events"
@@ -17,9 +17,10 @@ import (
 // list (and the encoded length); limit = usage-1 must reject, usage and usage+1 must accept.
 
 type C14Case struct {
-	Limit  string     `json:"limit"` // depth | objects | array | identifier | markers | docsize
-	Delta  int        `json:"delta"` // -1, 0, +1
-	Via    string     `json:"via"`   // rules | cbe | cte | cbe-stream | cte-stream (Decode from an io.Reader instead of DecodeDocument)
+	Limit  string     `json:"limit"`           // depth | objects | array | identifier | markers | docsize
+	Delta  int        `json:"delta"`           // -1, 0, +1
+	Block  int        `json:"block,omitempty"` // stream vias: bytes granted per Read call (0 = as asked)
+	Via    string     `json:"via"`             // rules | cbe | cte | cbe-stream | cte-stream (Decode from an io.Reader instead of DecodeDocument)
 	Events []ev.Event `json:"events"`
 }
 
@@ -105,7 +106,8 @@ func c14Meter(evs []ev.Event) usage {
 }
 
 func c14Opts(ctx *Ctx, limit string) gen.EvOpts {
-	o := gen.EvOpts{Chunked: true, MidCharSplit: true, MaxDepth: 5, MaxArr: 40, Budget: 25, TopContainer: limit == "depth"}
+	// NaNForms: a NaN delivered as a float / decimal float / big decimal event is one object like any other
+	o := gen.EvOpts{Chunked: true, MidCharSplit: true, NaNForms: true, MaxDepth: 5, MaxArr: 40, Budget: 25, TopContainer: limit == "depth"}
 	switch limit {
 	case "objects":
 		o.CustomBinary = true
@@ -158,6 +160,10 @@ func init() {
 			}
 			c.Via = vias[rapid.IntRange(0, len(vias)-1).Draw(t, "via")]
 			c.Events = gen.Document(t, c14Opts(ctx, c.Limit))
+			if strings.HasSuffix(c.Via, "-stream") {
+				// a reader that returns short reads: what counts is what arrived, not what was asked for
+				c.Block = rapid.SampledFrom([]int{0, 1, 2, 3, 5, 7, 16}).Draw(t, "block")
+			}
 			return c
 		},
 		Check: func(ci interface{}, ctx *Ctx) error {
@@ -199,6 +205,7 @@ func init() {
 			}
 			ctx.Label("limit:" + c.Limit)
 			ctx.Label("via:" + c.Via)
+			ctx.LabelIf(c.Block > 0, "short reads")
 			ctx.Label(fmt.Sprintf("delta:%d", c.Delta))
 			if use < 2 {
 				ctx.Label("usage<2-skipped")
@@ -232,7 +239,7 @@ func init() {
 					} else {
 						d = ce.NewCTEDecoder(cfg)
 					}
-					err = d.Decode(bytes.NewReader(doc), ce.NewRules(ev.NewRecorder(), cfg))
+					err = d.Decode(&faultReader{data: doc, block: c.Block, failAt: -1}, ce.NewRules(ev.NewRecorder(), cfg))
 				})
 				if o.TimedOut || o.Panic != nil {
 					return fmt.Errorf("%s decoder: %v", c.Via, o)
